@@ -4,12 +4,6 @@
 From Coq Require Import Permutation.
 From GA Require Import Base Iter IterProofs.
 
-Lemma releases_app t u : releases (t ++ u) = releases t ++ releases u.
-Proof. unfold releases. now rewrite filter_app, map_app. Qed.
-
-Lemma releases_drops l : releases (map EDrop l) = l.
-Proof. unfold releases. induction l as [|x l IH]; cbn; [reflexivity|]. now rewrite IH. Qed.
-
 Lemma drop_list_events bomb l : snd (drop_list bomb l) = map EDrop l.
 Proof. reflexivity. Qed.
 
